@@ -530,6 +530,17 @@ def create_shape(value:float, shape):
         #`t` could also be numpy
         return t.full(shape,value)
 
+def _literal_state(state: Any) -> Any:
+    """Compact reward states into their repr when (and only when) literal_eval can rebuild them."""
+    def is_literal(o):
+        t = type(o)
+        if t in (int,str,bool,type(None)): return True
+        if t is float: return o-o == 0 #nan and inf have no literal
+        if t in (list,tuple): return all(map(is_literal,o))
+        if t is dict: return all(map(is_literal,o.keys())) and all(map(is_literal,o.values()))
+        return False #e.g., Categorical or lazy rows, repr would not round-trip
+    return repr(state) if is_literal(state) else state
+
 class L1Reward(Rewards):
     """A reward function using L1 distance."""
     __slots__ = ('_argmax',)
@@ -588,10 +599,10 @@ class BinaryReward(Rewards):
             o._value == self._value)
 
     def __getstate__(self):
-        return repr((self._argmax,) if self._value == 1 else (self._argmax,self._value))
+        return _literal_state((self._argmax,) if self._value == 1 else (self._argmax,self._value))
 
     def __setstate__(self,args):
-        args = literal_eval(args)
+        if isinstance(args,str): args = literal_eval(args)
         self._argmax,self._value = (args[0],1) if len(args) == 1 else args
 
     def __repr__(self) -> str:
@@ -626,10 +637,10 @@ class HammingReward(Rewards):
         return create_shape(value,shape)
 
     def __getstate__(self):
-        return repr(self._argmax)
+        return _literal_state(self._argmax)
 
     def __setstate__(self,args):
-        self._argmax = literal_eval(args)
+        self._argmax = literal_eval(args) if isinstance(args,str) else args
 
     def __repr__(self) -> str:
         am = self._argmax
@@ -697,7 +708,7 @@ class DiscreteReward(Rewards):
             o._default == self._default)
 
     def __getstate__(self):
-        return repr((self._state,self._default))
+        return _literal_state((self._state,self._default))
 
     def __setstate__(self,args):
-        self._state,self._default = literal_eval(args)
+        self._state,self._default = literal_eval(args) if isinstance(args,str) else args
